@@ -242,7 +242,7 @@ pub fn long_skip_list(quick: bool) -> Vec<OpeningHoursExpression> {
     let ts = al::times();
     let mods = al::modifiers();
     let mut out = Vec::new();
-    let time_idx: Vec<usize> = if quick { vec![0, 6] } else { vec![0, 1, 3, 6, 4, 10] };
+    let time_idx: Vec<usize> = if quick { vec![0, 6, 17] } else { vec![0, 1, 3, 6, 4, 10, 17] };
     for ds in al::day_selectors(1).iter().skip(1) {
         if !al::is_long_skip(ds) {
             continue;
@@ -369,8 +369,12 @@ pub fn run(cfg: &Cfg) -> Outcome {
     for i in [0usize, n_full.saturating_sub(1), items.len() / 2, items.len() - 1] {
         acc.sample(json!({"expr": items[i].text, "full_window": items[i].full}));
     }
+    let capped = acc.get("expressions_hitting_start_cap");
     let mut o = Outcome::new("model_checking", acc);
     o.exhaustive = true;
+    if capped > 0 {
+        o.caps_hit.push(format!("{capped} (expression, context, block) combinations had more derived start instants than the cap or the schedule_at budget allows: the earliest/latest or an evenly spread sub-list was explored for them; the exhaustive streams (whole window / whole block) are not capped"));
+    }
     o.cov("family_size", json!(items.len()));
     o.cov("full_window_expressions", json!(n_full));
     o.cov("rule", json!("iterator as a transition system: for every expression × context, streams iter_from/iter_range are compared interval by interval with the pointwise oracle P (real schedule_at over every day of the window, run-length merged). Full-window mode (1899-12-30..10000-01-02, all 2 958 466 days): iter_from(DATE_START) and iter_from(DATE_START−1d) consumed to exhaustion, 40 intervals from every derived start (P boundaries in W_core × {−1min,−1s,0,+1s}, capped earliest/latest; year starts/ends; DATE_END±), iter_range on all ordered pairs of 24 instants around 4 boundaries. Block mode: the same on the three W_core blocks with P restricted to the block. states = iterator positions, transitions = next() calls compared, validated = complete streams equal to P; non-trivial = (expr, ctx) whose P has more than one run"));
